@@ -240,6 +240,27 @@ func (g *genCtx) pick(vals ...float64) float64 {
 
 var storageForms = []string{"var", "stash", "prop", "elem", "global", "let"}
 
+// stepOperand picks an operand w with w + step == v in float64 arithmetic: besides the obvious
+// v - step, the operands that only reach v through rounding or through the sign of zero (-0 + 1,
+// 2^52 - 0.5 + 1, -(2^53+2) + 1), whose internal representation is a float although v is integral.
+func (g *genCtx) stepOperand(v, step float64) (float64, bool) {
+	base := v - step
+	cands := []float64{base, base - 0.5, base + 0.5, base - step, math.Nextafter(base, math.Inf(1)), math.Nextafter(base, math.Inf(-1))}
+	if base == 0 {
+		cands = append(cands, math.Copysign(0, -1), math.Copysign(0, -1), 0)
+	}
+	var ok []float64
+	for _, w := range cands {
+		if !math.IsInf(w, 0) && !math.IsNaN(w) && sv(w+step, v) {
+			ok = append(ok, w)
+		}
+	}
+	if len(ok) == 0 {
+		return 0, false
+	}
+	return ok[rapid.IntRange(0, len(ok)-1).Draw(g.t, "stepop")], true
+}
+
 // wrapUpdate builds an IIFE that stores init in a location of a random storage
 // kind, applies stmt (with X standing for the location) and returns ret.
 func (g *genCtx) wrapUpdate(init, stmt, ret string) string {
@@ -377,27 +398,31 @@ func (g *genCtx) producer(kind string, v float64, d int) (string, bool) {
 		}
 		switch rapid.IntRange(0, 11).Draw(t, "upd") {
 		case 0: // ++x value
-			if !sv((v-1)+1, v) {
+			w, ok := g.stepOperand(v, 1)
+			if !ok {
 				return "", false
 			}
-			return g.wrapUpdate(g.numOrStr(v-1, d-1), "", "++X"), true
+			return g.wrapUpdate(g.numOrStr(w, d-1), "", "++X"), true
 		case 1: // x++ then read
-			if !sv((v-1)+1, v) {
+			w, ok := g.stepOperand(v, 1)
+			if !ok {
 				return "", false
 			}
-			return g.wrapUpdate(g.numOrStr(v-1, d-1), "X++", "X"), true
+			return g.wrapUpdate(g.numOrStr(w, d-1), "X++", "X"), true
 		case 2: // x++ returns old ToNumber
 			return g.wrapUpdate(g.numOrStr(v, d-1), "", "X++"), true
 		case 3:
-			if !sv((v+1)-1, v) {
+			w, ok := g.stepOperand(v, -1)
+			if !ok {
 				return "", false
 			}
-			return g.wrapUpdate(g.numOrStr(v+1, d-1), "", "--X"), true
+			return g.wrapUpdate(g.numOrStr(w, d-1), "", "--X"), true
 		case 4:
-			if !sv((v+1)-1, v) {
+			w, ok := g.stepOperand(v, -1)
+			if !ok {
 				return "", false
 			}
-			return g.wrapUpdate(g.numOrStr(v+1, d-1), "X--", "X"), true
+			return g.wrapUpdate(g.numOrStr(w, d-1), "X--", "X"), true
 		case 5:
 			return g.wrapUpdate(g.numOrStr(v, d-1), "", "X--"), true
 		case 6:
